@@ -132,6 +132,12 @@ def run(ctx, rep):
         for klass, detail in sess.device_key_discipline(c, im[3], sess.run_impl.last_event_times):
             rep.fail("oracle", klass, case_dict(c), detail)
     rep.sample({"ops": cases[5][3], "events": "see correspondence"})
+    # the K4 witness of props/C07.v (C07_handshake_replies_not_correlated) on the real LAN: same outcomes and events as the model
+    k4 = ([0, 0], [[(2499, 1, 0)], [(4501, 1, 0)], [(0, 1, 0)]], [[(0, 0, 7)], [(0, 0, 8)]], [(2, 1, 2), (5, 607, 0), (1, 19, 3), (1, 20, 3)])
+    res = sess.compare(ctx, rep, [k4], tag="k4-witness")
+    rep.case(None, "k4-witness")
+    if res and res[0][0][2] != [[-1], [-1], [10], [0, 8]]:
+        rep.fail("corr", "k4-witness-outcomes", {"history": "authenticate(retries=2) with the first reply 2.499 s late"}, {"impl": res[0][0][2]})
     # ---- a long session: counters wrap at 4096 again and again; authentication expires in between -----------------
     n = ctx.n(5000, 70000)
     ops = [(2, 1, 3)] + [(1, i % 200 + 1, 3) for i in range(n)]
